@@ -418,7 +418,7 @@ pub fn worker_hist(prop: &str, shard: usize, _nshards: usize, seed: u64, tier: &
     }
 }
 
-pub fn run_hist(prop: &str, tier: &str, seed: u64) -> i32 {
+pub fn run_hist(prop: &str, tier: &str, seed: u64) -> (Check, Agg) {
     let nshards = 16usize.max(par::ncores());
     let mut chk = Check::new(prop, tier, seed, "exploration");
     let agg = par::run_workers(prop, tier, seed, nshards, &[], Duration::from_secs(if tier == "thorough" { 10800 } else { 1200 }), None, &[]);
@@ -434,7 +434,7 @@ pub fn run_hist(prop: &str, tier: &str, seed: u64) -> i32 {
     if prop == "C18" {
         chk.need("pv lines replayed", agg.c("pv_lines"), 300);
     }
-    finalize(chk, &agg)
+    (chk, agg)
 }
 
 pub fn replay_hist(prop: &str, case: &Value, out: &mut Out) {
